@@ -1,3 +1,9 @@
 -- Root of the library: everything that must build (model, specs, proofs, property theorems, driver).
 import UF.Driver.Dispatch
 import UF.Props.C16
+import UF.GroupA
+import UF.GroupB
+import UF.GroupC
+import UF.GroupD
+import UF.GroupE
+import UF.GroupF
